@@ -1177,3 +1177,59 @@ func ruleNoBatchUseAfterCommit(c *Check, p *Prog, rule string, pkgPrefix string)
 		c.OK(rule, "no batch commit", "", "", "no function of the package commits a datastore batch", false)
 	}
 }
+
+// ruleStoreNotBuffered (C10-R12 / C20-R14 / C14-R11): a write that was acknowledged is durable
+// because the datastore the component writes to is the one the node opened, seen through
+// wrappers that only rename keys. A wrapper that holds writes back (autobatch), delays, retries
+// or redirects them changes what "Put returned nil" means: the batch was accepted, and a restart
+// loses it. Who-may-call: of the go-datastore module's sub-packages the package uses only those
+// that transform keys, build queries or add a mutex.
+func ruleStoreNotBuffered(c *Check, p *Prog, rule string, pkgPrefix string) {
+	c.Doc(rule, "CS: the package calls nothing of the go-datastore module's wrapper packages except keytransform, namespace, query and sync: no buffering (autobatch), delaying, retrying, failing or mounting wrapper sits between an acknowledged write and the node's datastore.")
+	allowed := map[string]bool{
+		"github.com/ipfs/go-datastore":              true,
+		"github.com/ipfs/go-datastore/keytransform": true,
+		"github.com/ipfs/go-datastore/namespace":    true,
+		"github.com/ipfs/go-datastore/query":        true,
+		"github.com/ipfs/go-datastore/sync":         true,
+	}
+	nCalls, nFns := 0, 0
+	var bad []string
+	for _, fn := range p.Funcs {
+		pk := fnPkg(fn)
+		if pk == nil || !strings.HasPrefix(pk.Pkg.Path(), pkgPrefix) || fn.Blocks == nil {
+			continue
+		}
+		nFns++
+		for _, b := range fn.Blocks {
+			for _, in := range b.Instrs {
+				ci, ok := in.(ssa.CallInstruction)
+				if !ok {
+					continue
+				}
+				callee := ci.Common().StaticCallee()
+				if callee == nil || callee.Pkg == nil {
+					continue
+				}
+				path := callee.Pkg.Pkg.Path()
+				if !strings.HasPrefix(path, "github.com/ipfs/go-datastore") {
+					continue
+				}
+				nCalls++
+				if !allowed[path] {
+					bad = append(bad, fnShort(callee)+" @"+p.InstrPos(in))
+				}
+			}
+		}
+	}
+	sort.Strings(bad)
+	inst := pkgPrefix[strings.LastIndex(pkgPrefix, "/")+1:] + " ⟂ no holding wrapper around the datastore"
+	switch {
+	case nFns == 0:
+		c.Unk(rule, inst, "", "", "anchor lost: no functions in "+pkgPrefix)
+	case len(bad) == 0:
+		c.OK(rule, inst, "", "", fmt.Sprintf("%d calls into the go-datastore module, all to the root package or to key-transforming / query / mutex wrappers", nCalls), true)
+	default:
+		c.Bad(rule, inst, "", strings.TrimPrefix(bad[0][strings.LastIndex(bad[0], "@")+1:], " "), "the component's datastore is wrapped by "+strings.Join(bad, ", ")+": a wrapper that holds writes back (or delays / redirects them) acknowledges a write that is not yet in the node's datastore — what was accepted before a stop or crash is gone after the restart, and deletions that were acknowledged come back", nil)
+	}
+}
